@@ -1,5 +1,8 @@
 """C08: files are only offered and uploaded to users entitled to them.
 
+Harnesses: search, shares, request, cycle (one step from any state), change (sequences through the public API), overlap
+(a second change injected at every suspension point of the running TransferManager._management_job).
+
 The real SharesManager (is_directory_locked / is_item_locked / query / create_shares_reply /
 get_shared_item[_cache] / add_ / update_ / remove_shared_directory / scan_directory_files), the real
 TransferManager (_on_peer_transfer_queue / _on_peer_transfer_request / _add_upload /
@@ -448,6 +451,21 @@ class World:
         """the user manager's periodic job: compares settings with its last snapshot, emits events"""
         self.run(self.um._management_job(self.um._management_task.context))
 
+    def detect_inline(self):
+        """the same job driven by hand at the current instant, without giving any other task a turn (used to land a
+        change *between two steps* of a running transfer management cycle); it must not suspend"""
+        coro = self.um._management_job(self.um._management_task.context)
+        self.loop._enter()
+        try:
+            try:
+                coro.send(None)
+            except StopIteration:
+                return
+            coro.close()
+            raise symex.HarnessError('UserManager._management_job suspended')
+        finally:
+            self.loop._leave()
+
     def offers(self, since=0):
         """PeerTransferRequest messages we sent (= we started serving an upload)"""
         return [(u, m) for u, m in self.net.peer_sent[since:] if isinstance(m, PeerTransferRequest.Request)]
@@ -812,6 +830,89 @@ def h_change(c, w, changes, fidx=0, msg='queue', user=0):
 
 
 # --------------------------------------------------------------------------------
+# H5: a second configuration change lands while the management cycle of the first one is running
+# --------------------------------------------------------------------------------
+
+INLINE_CHANGES = ['flags', 'flags_removed', 'friends', 'friends_replaced', 'listed', 'mode']
+
+
+@_guarded
+def h_overlap(c, w, first, second, prior=None, uploads=1, start=0, user_abort=0, fidx=0, msg='queue'):
+    """request(s) -> [prior change, fully processed] -> first change + detection -> the REAL
+    TransferManager._management_job runs as a task on the loop, one loop step at a time; before each step (= every
+    suspension point of the running cycle, plus "before it starts" and "after it ended") the second change and its
+    detection may be injected -> everything settles -> end-state obligations against the final configuration."""
+    users = USERS[:uploads]
+    f = w.shared_files()[fidx]
+    path = w.ref_remote_path(f)
+    sig0 = w.sig(msg, 'new:exact')
+    ts = []
+    for u in users:
+        conn = w.request(u, path, msg)
+        t = w.check_request(u, path, msg, conn, None, sig0)
+        if t is None:
+            c.reach('initially_refused')
+            return
+        ts.append(t)
+    c.reach('initially_queued')
+    if start:
+        w.tm_cycles()      # INITIALIZING with a live task each (two upload slots): aborting has to cancel and await it
+    if user_abort:
+        w.run(w.tm.abort(ts[0]))
+        w.tm_cycles()
+    if prior:
+        apply_change(w, c, prior, users[0], f, 0)
+        w.detect()
+        w.tm_cycles()
+    pres = [(t.state.VALUE.name, t.abort_reason) for t in ts]
+    mark = len(w.net.peer_sent)
+
+    apply_change(w, c, first, users[0], f, 1)
+    w.detect()
+    job = None
+    if not w.tm._management_queue.empty():
+        job = w.loop.spawn(w.tm._management_job())
+    else:
+        c.reach('first_change_not_detected')
+
+    def inject():
+        # what was offered so far was offered under the configuration in force until now
+        w.check_served(mark, w.sig(f'overlap:{first}+{second}', 'served'))
+        # with two uploads the second change concerns the other user (for flags) / everybody (friends, listed, mode)
+        apply_change(w, c, second, users[-1], f, 2)
+        w.detect_inline()
+
+    injected = False
+    steps = 0
+    while job is not None and not job.done():
+        if not injected and c.choose(2, f'inject_before_step{steps}'):
+            inject()
+            injected = True
+            c.reach('injected_while_cycle_suspended' if steps else 'injected_before_cycle_started')
+        if not w.loop.step():
+            raise symex.HarnessError('management job is blocked on something that never happens')
+        steps += 1
+        if steps > 60:
+            raise symex.HarnessError('management job does not finish')
+    if steps > 1:
+        c.reach('cycle_suspended')
+    if not injected:
+        inject()
+        c.reach('injected_after_cycle')
+    w.loop.run_ready()
+    w.tm_cycles()
+    c.reach('overlap_settled')
+    for t, (pre, pre_reason) in zip(ts, pres):
+        sig = w.sig(f'overlap:{first}+{second}', pre)
+        check_after_cycle(w, t, pre, pre_reason, sig)
+        if user_abort and t is ts[0]:
+            c.check(t.state.VALUE.name == 'ABORTED' and t.abort_reason == AbortReason.REQUESTED,
+                    'user_aborted_stays_aborted', sig=sig)
+    # (an offer made between the injected change and the cycle that processes it falls into the detection/processing
+    # latency, which is outside the claim; the end state above is what the property's second sentence demands)
+
+
+# --------------------------------------------------------------------------------
 # prelude: the proxies agree with the Python objects they stand for
 # --------------------------------------------------------------------------------
 
@@ -929,7 +1030,8 @@ META = {
               'symbolic runs only: SharedItem.get_query_path returns the really computed path as a str subclass (same characters) '
               'whose `in` accepts a symbolic phrase; validated against str',
               'management jobs are awaited directly (UserManager._management_job, TransferManager._management_job) instead of through '
-              'their BackgroundTask timers',
+              'their BackgroundTask timers; in harness overlap TransferManager._management_job is a task stepped one loop callback at a '
+              'time and UserManager._management_job is driven inline between two steps (it must not suspend)',
               'logging of the aioslsk package limited to ERROR; a TypeError/AttributeError logged by aioslsk is a harness error'],
     'data_variables': ['friend(u): Bool per user (3 users)', 'listed(d,u): Bool per directory and user',
                        'flags(u): BV8 per user in settings.users.blocked (all 256 values; bits SEARCHES=4, UPLOADS=32 decide)',
@@ -939,15 +1041,18 @@ META = {
                       'message kind queue/transfer request', 'requested path: each shared file or one of 11 variants',
                       'upload state before the step (8) and abort reason (3)', 'kind of configuration change (8) and new share mode (3)',
                       'whether the upload was started / aborted by the user / re-requested between change and cycle / whether '
-                      'scan() follows an added or removed directory', 'phrase lengths', 'query text'],
+                      'scan() follows an added or removed directory', 'phrase lengths', 'query text',
+                      'overlap: the loop-step boundary of the running management cycle at which the second change is injected '
+                      '(before it starts, each suspension point, after it ended)'],
     'bounds': {
         'quick': {'directories': '1..2 of {Music, Private} in every mode combination, 2 nested shapes, 4 shapes with a nested directory '
                                  'added/removed without a new scan', 'users': '3 (requests from user 0; the users are interchangeable)',
-                  'phrases': '1 phrase of length 0..3, 2 phrases of length 2+1', 'changes_in_sequence': '1 (2 for flags / friends / listed)',
+                  'phrases': '1 phrase of length 0..3, 2 phrases of length 2+1', 'changes_in_sequence': '1 (2 for flags / friends / listed); overlap: [prior] + first + second injected inside the cycle, 17 shapes',
                   'uploads_per_step': '1 (one job with 2)'},
         'thorough': {'directories': '1..3 incl. nested, every mode combination; 24 add/remove-without-scan shapes',
                      'users': 'requests from each of the 3 users', 'phrases': 'up to 3 phrases, length <= 3',
-                     'changes_in_sequence': '2 (every ordered pair of the 8 change kinds on 7 shapes)', 'uploads_per_step': '1..2'}},
+                     'changes_in_sequence': '2 (every ordered pair of the 8 change kinds on 7 shapes); overlap: every ordered pair of the 6 '
+                                            'non-structural kinds x 5 prior states x 1..2 uploads x started/not', 'uploads_per_step': '1..2'}},
     'outside': ['PeerDirectoryContentsReply (create_directory_reply ignores locks; not among the property\'s observables)',
                 'search replies listing files of a directory that was removed from the shares (its items stay in the term map while '
                 'referenced): observed and noted (reach label search_lists_unshared_file), no clause of the statement covers it',
@@ -1089,4 +1194,39 @@ def jobs(tier):
         for kind in ('flags', 'flags_removed'):
             change_job(base, ['flags', kind], absent=True, user=1)
             change_job(base, ['flags', kind], absent=True, user=2, msg='request')
+    # H5 a second change lands inside the running management cycle of the first (every suspension point enumerated)
+    owner_mode = {0: 'friends', 3: 'users'}     # base: file 0 lives in Music (friends), file 3 in Private (users)
+
+    def overlap_job(first, second, fidx=0, **kw):
+        req = ['initially_queued', 'overlap_settled', 'injected_after_cycle']
+        can_abort = (first in ('flags', 'mode') or (first.startswith('friends') and owner_mode[fidx] == 'friends')
+                     or (first == 'listed' and owner_mode[fidx] == 'users'))
+        if can_abort and not kw.get('user_abort'):
+            req += ['cycle_suspended', 'injected_while_cycle_suspended']
+        job('overlap', h_overlap, base, [], req, first=first, second=second, fidx=fidx, **kw)
+    if q:
+        for prior in (None, 'flags'):
+            for n in (1, 2):
+                for st in (0, 1):
+                    overlap_job('flags', 'flags', **({'prior': prior} if prior else {}), uploads=n, start=st)
+        overlap_job('flags', 'flags', start=1, user_abort=1)
+        overlap_job('friends', 'flags', prior='friends')
+        overlap_job('flags', 'friends', prior='flags', uploads=2)
+        overlap_job('friends_replaced', 'friends', start=1)
+        overlap_job('flags_removed', 'flags', prior='flags')
+        overlap_job('listed', 'mode', fidx=3, prior='flags')
+        overlap_job('mode', 'listed', fidx=3, start=1)
+        overlap_job('mode', 'friends_replaced', prior='listed', msg='request')
+        overlap_job('listed', 'flags', fidx=3, uploads=2, msg='request')
+    else:
+        for fidx in (0, 3):
+            for a in INLINE_CHANGES:
+                for b in INLINE_CHANGES:
+                    for prior in (None, 'flags', 'friends', 'listed'):
+                        for n in (1, 2):
+                            for st in (0, 1):
+                                kw = {'prior': prior} if prior else {}
+                                overlap_job(a, b, fidx=fidx, uploads=n, start=st, **kw)
+                    overlap_job(a, b, fidx=fidx, msg='request')
+                    overlap_job(a, b, fidx=fidx, start=1, user_abort=1)
     return out
